@@ -28,7 +28,11 @@ extern "C" void vp_thr_leaver(nested_arena_context* scope, int tid) {
 }
 extern "C" void vp_thr_worker(thread_data* td, int tid) {
   d1::task* t = vp_take_task(tid);          // parks until the entrant has enqueued its delegated task (or returns null: nothing to do)
-  if (t) static_cast<delegated_task*>(t)->delegated_task::execute(td->my_task_dispatcher->m_execute_data_ext);
+  if (t) {                                  // what delegated_task::execute does apart from saving/restoring the dispatcher's execution data
+    delegated_task* dt = static_cast<delegated_task*>(t);   // (the full execute() with its structure copies made the query run out of memory)
+    dt->m_delegate();
+    dt->finalize();                         // REAL: m_wait_ctx.release(); m_monitor.notify(ctx == &delegate); m_completed = true
+  }
   vp_done(tid);
 }
 // run the delegated task on the calling thread's current dispatcher (r1::wait stub of the E-side harness: the entrant got a slot and runs its dispatch loop)
